@@ -17,7 +17,7 @@ def insSorted (x : Nat × List Nat) : List (Nat × List Nat) → List (Nat × Li
 def selectReq (r : Req) : Option String := do
   let k ← r.nat "k"
   let sigs ← (← r.list "sigs").mapM parseSig
-  match select k sigs with
+  match selectMerged k sigs with
   | .ok out =>
     let l := (out.map fun s => (s.signer, s.idxs)).foldr insSorted []
     pure ("ok [" ++ String.intercalate "," (l.map fun e => s!"({e.1},{showNats e.2})") ++ "]")
